@@ -543,8 +543,12 @@ func runChildren(cfg Config, bin string, req plainReq, procs int) ([]plainResp, 
 		return nil, err
 	}
 	var out []plainResp
+	// "in the same process or in another": the other processes also differ in what a process inherits from its
+	// environment (time zone, locale); when the zone database is missing the TZ values simply mean UTC
+	envs := [][]string{{"TZ=UTC"}, {"TZ=Pacific/Kiritimati", "LANG=fr_FR.UTF-8", "LC_ALL=fr_FR.UTF-8"}, {"TZ=Pacific/Honolulu", "LANG=C"}}
 	for p := 0; p < procs; p++ {
 		cmd := exec.Command(bin, "-mode", "child", "-child", reqPath)
+		cmd.Env = append(os.Environ(), envs[p%len(envs)]...)
 		cmd.Stderr = os.Stderr
 		b, err := cmd.Output()
 		if err != nil {
